@@ -31,9 +31,16 @@ func runC19(c *Check) {
 	c.Doc("C19-R3", "VP: one address derivation.")
 	c.Doc("C19-R4", "GA: no signer on a failing path; key fields written last.")
 	var lk *ssa.Function
+	// the key loader: the method the constructor-from-file calls that opens (decrypts) the key
 	for _, cal := range staticCalleesOf(p, p.MustFunc(filePkg+".LoadFileSystemSigner")) {
 		if cal.Signature.Recv() != nil && corrResult(cal) >= 0 {
-			lk = cal
+			opens := callsNamed(cal, func(n string) bool { return n == "(crypto/cipher.AEAD).Open" })
+			if opens || lk == nil {
+				lk = cal
+			}
+			if opens {
+				break
+			}
 		}
 	}
 	if lk == nil {
@@ -536,6 +543,7 @@ func runC19(c *Check) {
 	c.MinInstances("C19-R1", 1)
 	c.MinInstances("C19-R2", 1)
 	ruleKeyFileIndexing(c, p, "C19-R11")
+	ruleNoUseAfterCalleeZeroed(c, p, "C19-R13")
 	c.MinInstances("C19-R3", 3)
 	c.MinInstances("C19-R4", 2)
 }
@@ -827,4 +835,134 @@ func ruleKeyFileIndexing(c *Check, p *Prog, rule string) {
 	if n < 3 {
 		c.Unk(rule, "anchor-count", "", "", fmt.Sprintf("anchor lost: only %d element accesses in the key-file package", n))
 	}
+}
+
+// ruleNoUseAfterCalleeZeroed (C19-R13): several functions of the key-file code wipe the passphrase
+// they were given when they return (defer zeroBytes(passphrase)). The buffer is the caller's: after
+// such a call it is all zeros. A caller that goes on to use it — re-encrypting the key under "the
+// passphrase" — seals the key under the all-zero passphrase: the file no longer opens with its own
+// passphrase and opens with zeros of the same length.
+func ruleNoUseAfterCalleeZeroed(c *Check, p *Prog, rule string) {
+	c.Doc(rule, "EO+VP: in the key-file code a byte slice that was handed to a function which zeroes that parameter is not used afterwards (other than being zeroed again): the callee wiped the caller's buffer.")
+	// functions that zero a []byte parameter (directly or deferred, through the package's wiper)
+	isWiper := func(f *ssa.Function) bool {
+		return f != nil && fnPkg(f) != nil && fnPkg(f).Pkg.Path() == filePkg && len(f.Params) == 1 && f.Signature.Results().Len() == 0 && strings.HasPrefix(f.Params[0].Type().String(), "[]byte") && mutatesElements(f)
+	}
+	zeroes := map[*ssa.Function]map[int]bool{}
+	for _, fn := range p.Funcs {
+		pk := fnPkg(fn)
+		if pk == nil || pk.Pkg.Path() != filePkg || fn.Blocks == nil || fn.Parent() != nil {
+			continue
+		}
+		for _, b := range fn.Blocks {
+			for _, in := range b.Instrs {
+				var cc *ssa.CallCommon
+				switch x := in.(type) {
+				case *ssa.Call:
+					cc = x.Common()
+				case *ssa.Defer:
+					cc = x.Common()
+				}
+				if cc == nil || !isWiper(cc.StaticCallee()) || len(cc.Args) != 1 {
+					continue
+				}
+				for i, prm := range fn.Params {
+					if cc.Args[0] == ssa.Value(prm) && !isWiper(fn) {
+						if zeroes[fn] == nil {
+							zeroes[fn] = map[int]bool{}
+						}
+						zeroes[fn][i] = true
+					}
+				}
+			}
+		}
+	}
+	n := 0
+	for _, fn := range p.Funcs {
+		pk := fnPkg(fn)
+		if pk == nil || pk.Pkg.Path() != filePkg || fn.Blocks == nil || fn.Parent() != nil {
+			continue
+		}
+		var g *Graph
+		for _, b := range fn.Blocks {
+			for _, in := range b.Instrs {
+				call, ok := in.(*ssa.Call)
+				if !ok {
+					continue
+				}
+				cal := call.Common().StaticCallee()
+				if cal == nil || zeroes[cal] == nil {
+					continue
+				}
+				args := call.Common().Args
+				for i := range zeroes[cal] {
+					if i >= len(args) {
+						continue
+					}
+					buf := args[i]
+					n++
+					if g == nil {
+						g = BuildECFG(p, fn, ExpandOpts{MaxDepth: 0})
+						c.NoteGraph(g)
+					}
+					var site *Node
+					for _, nd := range g.Nodes {
+						if nd.Kind == NInstr && nd.In == ssa.Instruction(call) {
+							site = nd
+						}
+					}
+					inst := fnShort(fn) + " ⟂ no use of the buffer after " + fnShort(cal) + " wiped it"
+					if site == nil {
+						c.Unk(rule, inst, fnName(fn), p.InstrPos(call), "call site not found in the graph")
+						continue
+					}
+					later := ""
+					for nd, r := range g.Reachable([]*Node{site}, nil) {
+						if !r || nd == site || nd.Kind != NInstr {
+							continue
+						}
+						if _, isDeferred := nd.In.(deferredCall); isDeferred {
+							continue // the caller's own deferred wipe
+						}
+						cc := CallCommonOf(nd)
+						if cc == nil || isWiper(cc.StaticCallee()) {
+							continue
+						}
+						for _, a := range cc.Args {
+							if a == buf {
+								later = commonName(cc) + " @" + p.InstrPos(nd.In)
+							}
+						}
+					}
+					if later == "" {
+						c.OK(rule, inst, fnName(fn), p.InstrPos(call), "the buffer is not used again after the callee wiped it", true)
+					} else {
+						c.Bad(rule, inst, fnName(fn), p.InstrPos(call), "the buffer handed to "+fnShort(cal)+" is zeroed when that call returns and is then used again by "+later+": what is meant to be the passphrase is all zeros there — a key re-encrypted with it no longer opens with its own passphrase and opens with zeros of the same length", nil)
+					}
+				}
+			}
+		}
+	}
+	if n == 0 {
+		c.Unk(rule, "anchor-count", "", "", "anchor lost: no call of a function that wipes its parameter in the key-file package")
+	}
+}
+
+// mutatesElements: fn stores into elements of its (only) slice parameter.
+func mutatesElements(fn *ssa.Function) bool {
+	for _, b := range fn.Blocks {
+		for _, in := range b.Instrs {
+			if st, ok := in.(*ssa.Store); ok {
+				if ia, ok := st.Addr.(*ssa.IndexAddr); ok && ia.X == ssa.Value(fn.Params[0]) {
+					return true
+				}
+			}
+			if call, ok := in.(*ssa.Call); ok {
+				if b, ok := call.Common().Value.(*ssa.Builtin); ok && b.Name() == "clear" && len(call.Common().Args) == 1 && call.Common().Args[0] == ssa.Value(fn.Params[0]) {
+					return true
+				}
+			}
+		}
+	}
+	return false
 }
